@@ -55,6 +55,8 @@ pub enum Payload {
     StructExpr,
     TypedParam(RTy),
     TypedLet(RTy),
+    /// `let data: T = <initialiser #i>;` - the annotation is the evident type whatever the initialiser
+    TypedLetInit(RTy, usize),
     InferredLet,
     RefOfParam(RTy),
     CloneOfParam(RTy),
@@ -82,6 +84,9 @@ pub struct Case {
     pub zod: bool,
 }
 
+/// initialisers of an annotated binding (none of them names the annotated type reliably)
+pub const LET_INITS: [&str; 8] = ["Default::default()", "Vec::new()", "Other::build()", "std::mem::take(&mut slot)", "serde_json::from_str(\"1\").unwrap()", "make().into()", "Wrapper::new(1).inner()", "Item::load(1)"];
+
 impl Payload {
     /// (extra fn params, statements before, payload expression, expected shape)
     fn render(&self, k: usize) -> (String, String, String, Shape) {
@@ -100,6 +105,7 @@ impl Payload {
             // the payload variable has the same name (`data`) in every function on purpose
             Payload::TypedParam(t) => (format!(", data: {}", t.to_rust()), String::new(), "data".to_string(), shape::denote(t)),
             Payload::TypedLet(t) => (String::new(), format!("    let data: {} = make();\n", t.to_rust()), "data".to_string(), shape::denote(t)),
+            Payload::TypedLetInit(t, i) => (String::new(), format!("    let data: {} = {};\n", t.to_rust(), LET_INITS[*i % LET_INITS.len()]), "data".to_string(), shape::denote(t)),
             Payload::InferredLet => (String::new(), "    let data = make();\n".to_string(), "data".to_string(), Shape::Unknown),
             Payload::RefOfParam(t) => (format!(", p{}: {}", k, t.to_rust()), String::new(), format!("&p{}", k), shape::denote(t)),
             Payload::CloneOfParam(t) => (format!(", p{}: {}", k, t.to_rust()), String::new(), format!("p{}.clone()", k), shape::denote(t)),
@@ -286,6 +292,7 @@ fn mk(case: &Case, class: &str, detail: String) -> Violation {
             Payload::Lit(l) => format!("lit:{}", if l.starts_with('"') { "str" } else if l.contains('.') { "float" } else if l == "true" { "bool" } else { "int" }),
             Payload::TypedParam(_) => "typed-param".into(),
             Payload::TypedLet(_) => "typed-let".into(),
+            Payload::TypedLetInit(_, i) => format!("typed-let-init:{}", LET_INITS[*i % LET_INITS.len()]),
             Payload::RefOfParam(_) => "ref-of-param".into(),
             Payload::CloneOfParam(_) => "clone-of-param".into(),
             other => format!("{:?}", other),
@@ -304,7 +311,7 @@ fn mk(case: &Case, class: &str, detail: String) -> Violation {
         .emits
         .iter()
         .filter_map(|e| match &e.payload {
-            Payload::TypedParam(t) | Payload::TypedLet(t) | Payload::RefOfParam(t) | Payload::CloneOfParam(t) => Some(t),
+            Payload::TypedParam(t) | Payload::TypedLet(t) | Payload::TypedLetInit(t, _) | Payload::RefOfParam(t) | Payload::CloneOfParam(t) => Some(t),
             _ => None,
         })
         .collect();
@@ -377,6 +384,12 @@ pub fn run(tier: Tier) -> CheckResult {
         payloads.push(Payload::TypedLet(t.clone()));
         payloads.push(Payload::RefOfParam(t.clone()));
         payloads.push(Payload::CloneOfParam(t.clone()));
+    }
+    // annotated bindings under every initialiser form, for a leaf, a named type and containers of it
+    for t in [RTy::prim("String"), RTy::named("Item"), RTy::vec(RTy::named("Item")), RTy::opt(RTy::named("Kind")), RTy::vec(RTy::prim("i32"))] {
+        for i in 0..LET_INITS.len() {
+            payloads.push(Payload::TypedLetInit(t.clone(), i));
+        }
     }
     for (i, pl) in payloads.iter().enumerate() {
         for (placement, emit_to) in [(0usize, false), (5, true), (13, false)] {
